@@ -102,9 +102,16 @@ def fajrExtreme (h : PHours α) : Bool :=
   | some f => f.extreme
   | none => false
 
+/-- `PrayerTime { extreme: x.extreme || fallback, .. }` on the fallback path: the time is kept, the
+    flag is set -/
+def flagExtreme : Except Panic (Option PT) → Except Panic (Option PT)
+  | .ok (some t) => .ok (some { t with extreme := true })
+  | r => r
+
 /-- get_imsaak, given how to run the policy layer for a parameter set.  The fallback (Fajr's time
     minus the Imsaak interval / 1.5 min) is taken when the Fajr of the adjusted parameters is
-    extreme or the Fajr actually reported (caller's parameters) is (`||` short-circuits). -/
+    extreme or the Fajr actually reported (caller's parameters) is (`||` short-circuits); an Imsaak
+    taken from the fallback is flagged extreme. -/
 def imsaakOf (p : Params α) (run : Params α → Except Panic (PHours α)) : Except Panic (Option PT) :=
   match run (imsaakParams1 p) with
   | .error e => .error e
@@ -120,7 +127,7 @@ def imsaakOf (p : Params α) (run : Params α → Except Panic (PHours α)) : Ex
       if redo then
         match run (imsaakParams2 p) with
         | .error e => .error e
-        | .ok h2 => optTime (imsaakParams2 p) .Fajr h2.fajr
+        | .ok h2 => flagExtreme (optTime (imsaakParams2 p) .Fajr h2.fajr)
       else optTime (imsaakParams1 p) .Fajr h1.fajr
 
 def getImsaak (p : Params α) (t : TopAstroDay α) (w : Weather α) : Except Panic (Option PT) :=
